@@ -171,3 +171,54 @@ def random_opts(rng):
 
 PLAIN = {'declare_states': True, 'declare_symbols': True, 'declare_stack': True, 'declare_tape': True, 'declare_eps': True,
          'declare_blank': True, 'grouping': 'grouped'}
+
+
+# ---------------------------------------------------------------- grammars (simple format) and regexps
+def render_simple_cfg(RG, eps='ε', rng=None, opts=None):
+    """simple text format: one line per variable in order of first appearance, the start variable's
+    rules first.  Requires single-character symbols."""
+    opts = opts or {}
+    by = {}
+    order = []
+    for (A, rhs) in RG[2]:
+        if A not in by:
+            order.append(A)
+        by.setdefault(A, []).append(''.join(x for (_, x) in rhs) if rhs else eps)
+    if RG[3] in order:
+        order.remove(RG[3])
+        order.insert(0, RG[3])
+    lines = []
+    for A in order:
+        if opts.get('split_lines') and rng is not None and len(by[A]) > 1 and rng.random() < 0.5 and A != order[0]:
+            k = rng.randint(1, len(by[A]) - 1)
+            lines.append('%s -> %s' % (A, ' | '.join(by[A][:k])))
+            lines.append('%s -> %s' % (A, ' | '.join(by[A][k:])))
+        else:
+            sep = ' | ' if not opts.get('tight') else '|'
+            lines.append('%s -> %s' % (A, sep.join(by[A])))
+    if opts.get('comments'):
+        lines.insert(1, '% a comment')
+        lines.insert(0, '%% language = something')
+    return '\n'.join(lines) + '\n'
+
+
+def render_regexp_simple(t, minimal_parens=True):
+    """simple concrete syntax: juxtaposition, +, *, parentheses"""
+    prec = {'0': 10, '1': 10, 's': 10, '*': 9, '.': 8, '+': 7}
+
+    def go(t):
+        k = t[0]
+        if k in '01':
+            return k
+        if k == 's':
+            return t[1]
+        if k == '*':
+            x = go(t[1])
+            return ('(%s)*' % x) if (prec[t[1][0]] < 9 or not minimal_parens) else x + '*'
+        a, b = go(t[1]), go(t[2])
+        if prec[t[1][0]] < prec[k] or not minimal_parens:
+            a = '(%s)' % a
+        if prec[t[2][0]] < prec[k] or (prec[t[2][0]] == prec[k] and True) or not minimal_parens:
+            b = '(%s)' % b if prec[t[2][0]] <= prec[k] and t[2][0] in '+.' or not minimal_parens else b
+        return a + ('+' if k == '+' else '') + b
+    return go(t)
